@@ -163,6 +163,12 @@ func vPFill(size int, salt int64) *Store[int, int] {
 		}
 	}
 	s.Wait()
+	if rnd.Intn(2) == 0 {
+		// a warm cache: high access frequencies (counters shared between keys get close to saturation)
+		s.policyMu.Lock()
+		s.RangeEntry(func(e *Entry[int, int]) { s.policy.sketch.Addn(s.hasher.Hash(e.key), 6+rnd.Intn(8)) })
+		s.policyMu.Unlock()
+	}
 	if rnd.Intn(3) == 0 {
 		// adaptive window: let the climber move capacity between window and protected
 		s.policyMu.Lock()
@@ -275,6 +281,15 @@ func vPersistRun(tr *vTrace, id string, salt int64, bytesN int) {
 		fb = cp()
 		fb[i].b.CheckSum ^= 0x10
 		emitLoad("corrupt", fb, vPEncode(fb), version, size)
+		if len(blocks[i].b.Data) > 4 {
+			// payload damaged AND the checksum field zeroed (e.g. dropped by a damaged type descriptor)
+			fb = cp()
+			d := append([]byte{}, blocks[i].b.Data...)
+			d[len(d)-1-rnd.Intn(3)] ^= byte(1 << uint(rnd.Intn(8)))
+			fb[i].b.Data = d
+			fb[i].b.CheckSum = 0
+			emitLoad("corrupt", fb, vPEncode(fb), version, size)
+		}
 		for _, t := range []uint8{1, 2, 3, 4, 255, 9} {
 			if t == blocks[i].b.Type {
 				continue
